@@ -194,9 +194,15 @@ Inductive paging :=
    called directly.  topn.go:96: make(..., 0, backingSize) panics for a negative capacity; a
    negative skip panics in Final (slice[skip] / heap.Pop on an empty heap).  size + skip = -1
    behaves as 0 (every added hit is removed again). *)
+(* topn.go:92-95: backingSize = size+skip+1, capped at PreAllocSizeSkipCap+1.  It is only the
+   capacity handed to make() (and the size of the match pool): the limit given to
+   AddNotExceedingSize stays size+skip (topn.go:219), so nothing else in the model reads it. *)
+Definition backing_size (size skip : Z) : Z :=
+  if prealloc_size_skip_cap <? size + skip then prealloc_size_skip_cap + 1 else size + skip + 1.
+
 Definition direct_collector (size skip : Z) (o : list sortspec) (rev : bool)
            (after : option (list bytes)) (agg_fields : list Z) : res coll :=
-  if (size + skip + 1 <? 0) || (skip <? 0) then Panic 1
+  if (backing_size size skip <? 0) || (skip <? 0) then Panic 1
   else Ok (new_collector (Z.to_nat (size + skip)) (Z.to_nat skip) o rev after agg_fields).
 
 (* search.go:169-181 TopNSearch.Collector *)
